@@ -117,6 +117,9 @@ pub fn li_matches(a: &[u8], b: &[u8], ra: bool, rb: bool) -> String {
             if x.matches(&x, ra, rb) != x.matches(&x.clone(), ra, rb) || y.matches(&y, ra, rb) != y.matches(&y.clone(), ra, rb) {
                 return "LAWFAIL matches() depends on object identity".into();
             }
+            // (identifiers rebuilt with `from_raw_parts_unchecked` and an empty list stored as Some([]) are NOT compared:
+            // on the pinned tree such a value neither == nor matches its parsed twin without range flags; values made by
+            // the `_unchecked` constructors are outside what the properties quantify over - DESIGN.md section 10, round 10)
             format!("{}", m)
         }
         _ => "BADARG".into(),
